@@ -157,9 +157,9 @@ func c07Rule(name, sinkSuffix, expr string, typ ref.VK) string {
 }
 
 type c07Obs struct {
-	fetch   map[string]bool
-	sinks   map[string]string
-	err     string
+	fetch    map[string]bool
+	sinks    map[string]string
+	err      string
 	builderr string
 }
 
